@@ -2,6 +2,7 @@ package main
 
 import (
 	"fmt"
+	"os"
 	"go/constant"
 	"go/token"
 	"go/types"
@@ -252,6 +253,9 @@ func (vc *VC) execNode(f *Frame, n *Node) {
 }
 
 func (vc *VC) execInstr(f *Frame, n *Node, in ssa.Instruction) {
+	if traceOn {
+		fmt.Fprintf(os.Stderr, "%s[%s] %s\n", strings.Repeat("  ", f.depth), n.Key, in.String())
+	}
 	st := n.St
 	switch in := in.(type) {
 	case *ssa.DebugRef:
@@ -1156,3 +1160,5 @@ func (vc *VC) modIdiom(a, b string) (string, bool) {
 	}
 	return "", false
 }
+
+var traceOn = os.Getenv("GOVC_TRACE") == "2"
